@@ -16,6 +16,8 @@ LAT = 'tenpy/models/lattice.py'
 CATS = ['nearest_neighbors', 'next_nearest_neighbors', 'next_next_nearest_neighbors',
         'fourth_nearest_neighbors', 'fifth_nearest_neighbors']
 CLASSES = {'Chain': 1, 'Ladder': 1, 'Square': 2, 'Triangular': 2, 'Honeycomb': 2, 'Kagome': 2}
+# Lattice subclasses with predefined pair tables that live in other modules
+OTHER_CLASSES = {'DualSquare': ('tenpy/models/toric_code.py', 2)}
 
 
 class NotConst(Exception):
@@ -49,7 +51,29 @@ def ceval(node, env):
             return ceval(node.args[0], env)
         if d in ('np.sqrt', 'math.sqrt') and node.args:
             return _map1(math.sqrt, ceval(node.args[0], env))
+        if d == 'np.eye' and len(node.args) == 1 and not node.keywords:
+            n = int(ceval(node.args[0], env))
+            return [[1.0 if i == j else 0.0 for j in range(n)] for i in range(n)]
         raise NotConst(unparse(node))
+    if isinstance(node, ast.ListComp) and all(
+            isinstance(g.target, ast.Name) and not g.ifs and not g.is_async
+            for g in node.generators):
+        out = []
+
+        def rec(k, env_):
+            if k == len(node.generators):
+                out.append(ceval(node.elt, env_))
+                return
+            g = node.generators[k]
+            seq = ceval(g.iter, env_)
+            if not isinstance(seq, list):
+                raise NotConst(unparse(g.iter))
+            for v in seq:
+                e2 = dict(env_)
+                e2[g.target.id] = v
+                rec(k + 1, e2)
+        rec(0, env)
+        return out
     if isinstance(node, ast.Subscript) and isinstance(node.slice, ast.Constant):
         v = ceval(node.value, env)
         return v[int(node.slice.value)]
@@ -129,7 +153,12 @@ def check_geometry(prog, rep):
     m = prog.module(LAT)
     rep.unit(m)
     n_cat = 0
-    for cname, dim in CLASSES.items():
+    todo = [(m, c, d) for c, d in CLASSES.items()]
+    for c, (rel, d) in OTHER_CLASSES.items():
+        m2 = prog.module(rel)
+        rep.unit(m2)
+        todo.append((m2, c, d))
+    for m, cname, dim in todo:
         basis, pos, pairs, f = extract_geometry(m, cname, dim)
         nu = len(pos)
         W = 4
